@@ -38,6 +38,10 @@ func runC32(r *Run) {
 	ttl := []time.Duration{10 * time.Second, 2 * time.Second, 30 * time.Second}[r.W.Pick(3)]
 	withFallback := r.W.Pick(2) == 0
 	b1, b2 := "10.3.0.1:25565", "10.3.0.2:25565"
+	if r.W.Pick(3) == 0 {
+		b2 = "10.3.0.1:25566" // two backends on one host, told apart by the port only
+	}
+	variant := 0 // changes a later route without changing the number of routes
 	mkRoutes := func(extra int) []liteconfig.Route {
 		rt := liteconfig.Route{Host: []string{"*"}, Backend: []string{b1, b2}, CachePingTTL: configutil.Duration(ttl)}
 		if withFallback {
@@ -45,11 +49,12 @@ func runC32(r *Run) {
 		}
 		routes := []liteconfig.Route{rt}
 		for i := 0; i < extra; i++ {
-			routes = append(routes, liteconfig.Route{Host: []string{fmt.Sprintf("extra%d.example", i)}, Backend: []string{"10.3.9.9:25565"}})
+			routes = append(routes, liteconfig.Route{Host: []string{fmt.Sprintf("extra%d.example", i)}, Backend: []string{fmt.Sprintf("10.3.9.%d:25565", 9+variant)}})
 		}
 		return routes
 	}
-	w := newLite(r, mkRoutes(0), nil)
+	extra := r.W.Pick(3)
+	w := newLite(r, mkRoutes(extra), nil)
 	defer w.finish()
 	lite.ResetPingCache() // the cache is process-global: start every run from an empty one
 
@@ -135,9 +140,8 @@ func runC32(r *Run) {
 	}
 	resetKinds := make([]int, nResets)
 	for i := range resetKinds {
-		resetKinds[i] = r.W.Pick(2)
+		resetKinds[i] = r.W.Pick(3)
 	}
-	extra := 0
 	reloadDone := nResets == 0
 	if nResets > 0 {
 		w.s.GoNamed("reloader", func() {
@@ -148,11 +152,20 @@ func runC32(r *Run) {
 					simrt.Yield("c32.reload-jitter")
 				}
 				rs := reset{inv: w.nextSeq()}
-				if resetKinds[i] == 0 {
+				if resetKinds[i] == 0 || (resetKinds[i] == 2 && extra == 0) {
 					cand := *w.cfg
 					extra++
 					cand.Lite.Routes = mkRoutes(extra)
 					r.Op("reload")
+					if err := w.p.ApplyLiveConfig(&cand); err != nil {
+						r.HarnessError("ApplyLiveConfig: %v", err)
+					}
+				} else if resetKinds[i] == 2 {
+					// same number of routes, only a later route differs
+					cand := *w.cfg
+					variant++
+					cand.Lite.Routes = mkRoutes(extra)
+					r.Op("reload-later-route")
 					if err := w.p.ApplyLiveConfig(&cand); err != nil {
 						r.HarnessError("ApplyLiveConfig: %v", err)
 					}
@@ -333,6 +346,12 @@ func runC32(r *Run) {
 		for _, f := range fetches {
 			if f.start > q.start && f.end != 0 && f.end < q.end && f.prot == q.prot {
 				anyOK = true
+			}
+		}
+		for _, addr := range []string{b1, b2} {
+			if !failAll && behave[addr] != 2 {
+				r.Fail("fallback-although-backend-healthy", "fallback", "a request got the fallback status although backend %s answers every status request (it was %s): %s", addr, map[bool]string{true: "asked", false: "never asked"}[anyOK], desc())
+				return
 			}
 		}
 		if anyOK {
